@@ -16,6 +16,12 @@ CHECKS = {
     design_ref="DESIGN.md §5 C17",
     note="Trusted: TLC, Text!Denote (cross-checked per event against the generator's own magnitude), the character-literal table and Python spelling of random values. Weakest reading of 'fits in 32 bits' (see Trace_Lit header).",
     technique="TLA+ literal denotation (Text!Denote) + TLC-generated spellings replayed into the real parser + TLC trace validation"),
+ "C09": dict(
+    category="model_checking",
+    text="TLC enumerates Gen_Layout (12 statement templates squared x leading blank lines x indentation x trailing comment x two statements on a line x base/included file; 20736 layouts, quick tier runs every 8th) and computes every statement/operand span from string lengths; the real lexer, parser and full lint pipeline run on each layout and TLC validates every reported location (tokens, nodes, operand tokens, parse errors, CFG errors, lint diagnostics) against Text!PosOf of the named file and against the generated spans; repository and corpus programs are validated for consistency as recorded traces.",
+    design_ref="DESIGN.md §5 C09",
+    note="Trusted: TLC, Text.tla position function, harness projection. Inclusive range ends; label range includes the colon; CRLF handled under C07.",
+    technique="TLA+ position function (Text!PosOf) + TLC-generated layouts replayed into lexer/parser/lints + TLC trace validation of every reported location"),
 }
 PENDING = "check not built yet in this round (planned, see DESIGN.md §5); not claimed until its check is green on the unchanged tree"
 m = {
